@@ -32,6 +32,8 @@
 //!               "verify_aggregate_seals": bool, "batch_verify_seals": bool, "consensus_fault": bool}
 //!   sends      [ {"ok": true, "ret": <ret>} | {"ok": false, "exit_code": N [, "ret": <ret>]} |
 //!                {"syserr": "InsufficientFunds" | "NotFound" | ...} ]   consumed in order, one per send
+//!              call (also by calls the runtime rejects by itself); when the list is used up sends
+//!              fail with exit code 99 and `script_exhausted` is reported
 //!              <ret> = null | {"bool": b} | {"u64": n} | {"i64": n} | {"bigint": n} | {"string": s}
 //!                      | {"cbor_bytes": "hex"} (a CBOR byte string) | {"bytes": "hex"} (already encoded CBOR)
 
@@ -199,6 +201,14 @@ fn code_of_json(v: Option<&Value>, default: &str) -> Result<Option<Cid>> {
 }
 
 pub fn parse_error_number(s: &str) -> Result<ErrorNumber> {
+    // lenient spelling: "InsufficientFunds", "insufficient_funds", "INSUFFICIENT-FUNDS"
+    let canon: String = s.chars().filter(|c| c.is_ascii_alphanumeric()).collect::<String>().to_ascii_lowercase();
+    let names = [
+        "IllegalArgument", "IllegalOperation", "LimitExceeded", "AssertionFailed", "InsufficientFunds",
+        "NotFound", "InvalidHandle", "IllegalCid", "IllegalCodec", "Serialization", "Forbidden",
+        "BufferTooSmall", "ReadOnly",
+    ];
+    let s = names.iter().find(|n| n.to_ascii_lowercase() == canon).copied().unwrap_or(s);
     Ok(match s {
         "IllegalArgument" => ErrorNumber::IllegalArgument,
         "IllegalOperation" => ErrorNumber::IllegalOperation,
@@ -718,13 +728,12 @@ impl Runtime for ReplayRuntime {
             self.record(rec);
             Err(SendError(e))
         };
+        // EVERY send call consumes one scripted outcome (also the ones rejected below without
+        // looking at it), so that the script stays aligned with the order of the send calls
+        let scripted = self.script.borrow_mut().pop_front();
         if *self.in_transaction.borrow() {
-            // never reaches the VM: does not consume a scripted outcome
             return fail(rec, ErrorNumber::IllegalOperation, "send inside transaction");
         }
-        // every send that reaches the VM consumes one scripted outcome, so that the script stays
-        // aligned with the order of the sends even if the VM rejects this one by itself
-        let scripted = self.script.borrow_mut().pop_front();
 
         if value.is_negative() || value.atto() > &BigInt::from(u128::MAX) {
             return fail(rec, ErrorNumber::InsufficientFunds, "value not representable");
